@@ -69,7 +69,7 @@ def op_user_lines(op):
 def oracle(case, obs):
     rows = base.case_rows(case)
     key = {r[0]: r[5] for r in rows}
-    default = base.ctx(case["platform"])["default"]
+    default = base.desired_of(case)      # the level commands must run in under THIS configuration
     base_names = [r[0] for r in base.ctx(case["platform"])["rows"]]
     cooperative = not case["blocked"] and case["dpw"] is None
     registered = []
@@ -119,7 +119,9 @@ def oracle(case, obs):
                 if l in ulines and m != asked:
                     out.append((f"op {i} {op}: user line {l!r} was executed in level {m!r}, the operation named {asked!r}", flags))
                     break
-        if rec["belief"] != "DUMMY" and rec["belief"] != rec["mode"]:
+        # (after close() the device session is over — the hook's last line may well have moved the device, e.g. `exit` typed in a
+        # configuration level when that is the desired level; the next open() starts a new session and reads the prompt first)
+        if k != "X" and rec["belief"] != "DUMMY" and rec["belief"] != rec["mode"]:
             out.append((f"op {i} {op}: afterwards the driver believes {rec['belief']!r} but the device is in {rec['mode']!r}", flags))
         else:
             tainted = False     # belief is sound (or unknown) again
@@ -185,6 +187,8 @@ def gen_cases(ck, tier):
         for names in sets:
             cases += list(session_histories(rng, p, names, 4 if tier == "quick" else 5))
             cases += list(session_histories(rng, p, names, 0, budget=150 if tier == "quick" else 2000))
+    for p in privgen.PLATFORMS:
+        cases += list(desired_histories(rng, p, tier))
     return cases
 
 
@@ -261,6 +265,61 @@ def lifecycle_histories(rng, platform, nmax, budget=None):
             blocked = [((m, cmd), rng.choice(["refuse", "ignore"])) for m, cmd in rng.sample(tr, min(k, len(tr)))]
             dpw, sec, pwl = rng.choice(base.PW_VARIANTS + [(None, "", 3)] * 4)
             yield dict(mk(platform, rng.choice(logins), expand(h), blocked, dpw, sec, pwl, names=base.rand_names(rng, platform)), hooks=True)
+
+
+def desired_histories(rng, platform, tier):
+    """the SAME families on drivers constructed with every legal non-default `default_desired_privilege_level` (each level name of
+    the platform's table — a public constructor argument, inside the property's "all configurations"): what send_command(s), the
+    default send_interactive and the on_open / on_close hooks must run in is THAT level.
+      (a) abort paths, exhaustively: [nothing | a command | generic mode on, off] ; [register] ; send_configs(stop_on_failed, failing
+          line) at every configuration level incl. a registered session ; every follow-up of `follow`
+      (b) all histories over the reduced alphabet to length 2 (thorough 3; quick: a sample of length 3), login = platform default and
+          the desired level itself
+      (c) re-opened connections with the real hooks, abandoned privilege changes, interleaved session registrations, PRNG histories
+          over the full alphabet with refusing devices and passwords from every login level"""
+    c = base.ctx(platform)
+    sess = SESS.get(platform, [])
+    small, full = alphabet(platform, False), alphabet(platform, True)
+    logins = login_levels(platform)
+    tr = base.transitions(list(c["rows"]) + base.session_rows(platform, sess))
+    quick = tier == "quick"
+
+    def put(case, d):
+        return dict(case, desired=d)
+    for d in base.desired_levels(platform):
+        # (a)
+        firsts = [[], [("c", "show a")], [("g", True), ("g", False)]]
+        follow = [[("c", "show a")], [("C", False, ["show a", "show b"])], [("I", "", ["int a"])], [("G", False, "", ["cfg b"]), ("c", "show a")],
+                  [("g", True), ("g", False), ("c", "show a")], [("A", d), ("c", "show a")]]
+        for lv in config_levels(platform, sess[:1]):
+            reg = [("R", lv)] if lv in sess else []
+            for f0 in firsts:
+                for fo in follow:
+                    for lines in (["cfg a", "badline", "cfg b"], ["badline"]):
+                        yield put(mk(platform, c["default"], f0 + reg + [("G", True, lv, lines)] + fo), d)
+        # (b)
+        for login in dict.fromkeys([c["default"], d]):
+            for n in (1, 2, 3):
+                for h in itertools.product(small, repeat=n):
+                    if n == 3 and (login != c["default"] or (quick and rng.random() < 0.9)):
+                        continue
+                    yield put(mk(platform, login, h), d)
+        # (c)
+        for cs in lifecycle_histories(rng, platform, 2 if quick else 3):
+            yield put(cs, d)
+        for cs in lifecycle_histories(rng, platform, 0, budget=12 if quick else 300):
+            yield put(cs, d)
+        for cs in fault_histories(rng, platform, 20 if quick else 400):
+            yield put(cs, d)
+        for names in SESSION_NAME_SETS.get(platform, [])[:2]:
+            for cs in session_histories(rng, platform, names, 0, budget=15 if quick else 300):
+                yield put(cs, d)
+        for _ in range(30 if quick else 800):
+            h = [rng.choice(full) for _ in range(rng.choice([3, 4, 5, 6, 8, 12]))]
+            k = rng.choice([0, 0, 0, 1, 2])
+            blocked = [((m, cmd), rng.choice(["refuse", "ignore"])) for m, cmd in rng.sample(tr, min(k, len(tr)))]
+            dpw, sec, pwl = rng.choice(base.PW_VARIANTS + [(None, "", 3)] * 4)
+            yield put(mk(platform, rng.choice(logins), h, blocked, dpw, sec, pwl, names=base.rand_names(rng, platform)), d)
 
 
 def run_sync(case):
@@ -374,10 +433,12 @@ def run(tier, seed):
                "send_interactive at every level, register_configuration_session (EOS / NX-OS), generic-driver mode on / off. "
                "Exhaustive: all histories over a reduced alphabet (~8-11 ops) to length 3 (quick; 4 thorough) from the default login and "
                "2 (3) from every other login level; all histories over the FULL alphabet (18-34 ops) to length 2 (3 thorough); PRNG "
-               "histories to length 12 with refusing devices and passwords. Every history runs on the REAL driver (sync; every 4th "
+               "histories to length 12 with refusing devices and passwords. The same families (abort paths exhaustively, reduced alphabet "
+               "to length 2/3, re-opened connections, abandoned privilege changes, sessions, PRNG) on drivers constructed with EVERY "
+               "non-default default_desired_privilege_level of the platform table. Every history runs on the REAL driver (sync; every 4th "
                "also asyncio) and on the Lean model; non-trivial = at least two operations of which one sends user lines; distinct "
                "by the whole case. Oracle (independent Python): every (mode, user line) of the device log carries the level the "
-               "calling operation named; belief after every operation is unknown or the device's true level; configs are refused "
+               "calling operation named (commands / hook lines: the desired level of THAT driver); belief after every operation is unknown or the device's true level; configs are refused "
                "in generic mode.")
     ck.trusted = ["Lean 4.33.0 kernel; axioms of every theorem audited ⊆ {propext, Classical.choice, Quot.sound}",
                   "tools/gen/privgen.py (tables, defaults, abort shapes, session template copied from the live source)",
@@ -426,8 +487,9 @@ def run(tier, seed):
         sends = sum(1 for k in kinds if k in ("c", "C", "G", "g1", "I"))
         outs = [r["out"] for r in obs_s[i]["recs"]]
         ck.case(json.dumps(c, sort_keys=True), nontrivial=len(kinds) >= 2 and sends >= 1,
-                sample={k: c.get(k) for k in ("platform", "host", "user", "login", "ops", "blocked", "dpw", "sec")},
+                sample={k: c.get(k) for k in ("platform", "host", "user", "login", "desired", "ops", "blocked", "dpw", "sec")},
                 tags=(c["platform"], f"len={min(len(kinds), 12)}", f"login={c['login']}", "blocked" if c["blocked"] else "coop", "reopened-with-hooks" if c.get("hooks") else "single-session",
+                      f"desired={'non-default:' + c['desired'] if c.get('desired') else 'platform-default'}",
                       *((f"fault={c['fault']['point']}/{c['fault']['kind']}",) if c.get("fault") else ()), "host-has-upper" if any(ch.isupper() for ch in c.get("host", "")) else "host-lower",
                       *{f"op={k}" for k in kinds}, *{f"out={o}" for o in outs}))
         for stack, o in runs:
